@@ -157,6 +157,13 @@ func (in *Interp) formatArg(a Iface, verb byte) Str {
 			}
 		}
 		return in.strConst("<sym>")
+	case Slice:
+		// %s / %v of a []byte prints the bytes (used for pre-rendered JSON)
+		if sl, ok := a.t.Underlying().(*types.Slice); ok && (verb == 's' || verb == 'v') {
+			if b, ok := sl.Elem().Underlying().(*types.Basic); ok && b.Kind() == types.Uint8 {
+				return Str{elems: elemsOfBytes(v)}
+			}
+		}
 	case Ptr:
 		if v.p != nil {
 			if e, ok := (*v.p).(*ErrVal); ok {
@@ -261,6 +268,41 @@ func (e *Engine) registerModels() {
 			out = append(out, in.formatArg(iv, 'v').elems...)
 		}
 		return Str{elems: out}
+	}
+	// fmt.Fprint* into an in-memory writer (*bytes.Buffer, *strings.Builder)
+	toWriter := func(in *Interp, w Value, s Str) Value {
+		f, ok := w.(Iface)
+		if !ok {
+			panic(unsupported("fmt.Fprint to an unmodelled writer"))
+		}
+		p, ok := f.v.(Ptr)
+		if !ok || p.p == nil {
+			panic(unsupported("fmt.Fprint to an unmodelled writer"))
+		}
+		ts := typeString(f.t)
+		if !strings.HasSuffix(ts, "bytes.Buffer") && !strings.HasSuffix(ts, "strings.Builder") {
+			panic(unsupported("fmt.Fprint to " + ts))
+		}
+		b := in.bufOf(p)
+		b.elems = append(b.elems, s.elems...)
+		return Tuple{in.strLen(s), Iface{}}
+	}
+	m["fmt.Fprintf"] = func(in *Interp, fn *ssa.Function, a []Value) Value {
+		return toWriter(in, a[0], in.sprintf(a[1].(Str), a[2].(Slice)))
+	}
+	m["fmt.Fprint"] = func(in *Interp, fn *ssa.Function, a []Value) Value {
+		return toWriter(in, a[0], m["fmt.Sprint"](in, fn, a[1:]).(Str))
+	}
+	m["fmt.Fprintln"] = func(in *Interp, fn *ssa.Function, a []Value) Value {
+		var out []SElem
+		for i, x := range a[1].(Slice).v {
+			if i > 0 {
+				out = append(out, SElem{b: in.tt.BV(8, ' ')})
+			}
+			out = append(out, in.formatArg(x.(Iface), 'v').elems...)
+		}
+		out = append(out, SElem{b: in.tt.BV(8, '\n')})
+		return toWriter(in, a[0], Str{elems: out})
 	}
 	nop := func(in *Interp, fn *ssa.Function, a []Value) Value { return nil }
 	for _, n := range []string{"log.Printf", "log.Print", "log.Println"} {
@@ -404,6 +446,18 @@ func (e *Engine) registerModels() {
 	}
 	m["math.Abs"] = func(in *Interp, fn *ssa.Function, a []Value) Value {
 		return in.tt.FpUn(OFpAbs, a[0].(*Term))
+	}
+	m["math.Trunc"] = func(in *Interp, fn *ssa.Function, a []Value) Value {
+		x := a[0].(*Term)
+		if x.op == OFpOfBits {
+			// pure bit-vector encoding (math.modf's own algorithm); finiteness carries over
+			tb := in.tt.bvTruncBits(x.args[0])
+			if in.path.finite[x.args[0].id] {
+				in.path.finite[tb.id] = true
+			}
+			return in.tt.FpOfBits(tb)
+		}
+		return in.tt.FpUn(OFpTrunc, x)
 	}
 	m["math.IsNaN"] = func(in *Interp, fn *ssa.Function, a []Value) Value {
 		t := a[0].(*Term)
